@@ -56,16 +56,27 @@ LEVEL_TEXT = ('Lean theorems for every CSS parity-check matrix (pure-X / pure-Z 
               'length-n vector with exactly the given syndrome, which discharges the union-find solver contract: '
               'UnionFindDecoder.decode reproduces the syndrome with no hypothesis left; with dangling edges (planar '
               'codes) partial correctness is proved and non-termination exhibited; the model is proved to FAIL on '
-              'Toric2DCode(2,2) (parallel edges) exactly as the implementation does.')
+              'Toric2DCode(2,2) (parallel edges) exactly as the implementation does. ALL LATTICE SIZES '
+              '(Properties/C05UnionFindToric): for every Lx, Ly >= 2 the two matrices UnionFindDecoder hands to '
+              'Support (code.Hz = Z block of the vertex rows, code.Hx = X block of the face rows of the matrix '
+              'assembled from the all-sizes lattice model of Toric2DCode) are proved to be the vertex/qubit and '
+              'face/qubit incidence matrices, every qubit lies in exactly two vertex and two face operators, and for '
+              'every Lx, Ly >= 3 two generators of one type share at most one qubit, so both are closed graphs: for '
+              'every Toric2DCode(Lx, Ly) with sides >= 3, every Pauli error and every set iteration order the modelled '
+              'UnionFindDecoder.decode returns a binary length-2n vector with exactly the measured syndrome and '
+              'error+correction is in the code space (is_success iff the residual is a product of generators, with '
+              'C01 valid_code and C04); conversely for EVERY size with a side equal to 2 both sector matrices are '
+              'proved to have parallel edges (not graph-like): closedGraph holds exactly for sides >= 3.')
 LEVEL_NOTE = ('trusted (modelled, not verified): PyMatching Matching.decode (returns a minimum-weight solution of '
               'H c = s), ldpc BpOsdDecoder.decode (return value solves H c = s for s in im H); each contract is '
               'tested on every run by the spy. uf_support.Support is not a black box: its internals are modelled, tied '
               'by a step-granular correspondence (growth states, parent arrays incl. path compression, cluster '
               'records, spanning trees, peeling rounds, correction) and proved totally correct on closed graphs for '
               'every set iteration order; CPython set iteration order is not modelled: recorded from the run and fed '
-              'to the model, which validates it. Not proved for all sizes: that Toric2DCode with sides >= 3 has '
-              'closed-graph sector matrices (evaluated per size by the compiled model and independently in numpy; '
-              'decide for 3x3). Tested only, not '
+              'to the model, which validates it. That Toric2DCode with sides >= 3 has closed-graph sector matrices is '
+              'proved for all sizes about the hand-written lattice model (tied to the class by the C01 '
+              'correspondence and, per run, by the op uf.toric: the sector matrices of the model equal code.Hz / '
+              'code.Hx and are in the proved class, sizes up to 7x4, 10x10 thorough). Tested only, not '
               'proved: constructibility of every (decoder, allowed code) pair; "returns a binary length-2n vector '
               'without raising" for the sweep-match decoders, whose sweepers are modelled by interface only (sweep '
               'automata: C10). MBP: the float message passing (log_exp_bias, tanh_prod, gamma/delta updates) is not '
@@ -108,7 +119,8 @@ ANCHOR_FILES = ['panqec/decoders/matching/_matching_decoder.py', 'panqec/decoder
                 'panqec/decoders/base/_base_decoder.py', 'panqec/config.py',
                 'panqec/error_models/_base_error_model.py', 'panqec/decoders/xcube/_xcube_matching_decoder.py',
                 'panqec/decoders/belief_propagation/mbp_decoder.py']
-PROPERTY_MODULES = ['PanqecVerif.Properties.C05', 'PanqecVerif.Properties.C05UnionFind', 'PanqecVerif.Properties.C05XCube',
+PROPERTY_MODULES = ['PanqecVerif.Properties.C05', 'PanqecVerif.Properties.C05UnionFind',
+                    'PanqecVerif.Properties.C05UnionFindToric', 'PanqecVerif.Properties.C05XCube',
                     'PanqecVerif.Properties.C05Mbp']
 
 warnings.filterwarnings('ignore')
